@@ -51,7 +51,8 @@ EXPLANATION = (
   "exempts every non-formula column it writes (same rows), the exemption map is written only by "
   "Engine.prevent_recalc, cleared only by apply_user_actions and never between applying a user "
   "action and the recalculation that follows, only read (never consumed) by _recompute_step, which subtracts the exempt rows before scanning, and exemptions "
-  "are lifted only by user-level code (which a replay never runs). Relies "
+  "are lifted only by user-level code (which a replay never runs); DocActions.BulkAddRecord exempts "
+  "the non-formula columns it is given values for, the same way. Relies "
   "on C02-R1/R2/R6 and C01-R4. Not decided: equality of the replayed state (formulas that are "
   "not functions of the document are outside any structural rule).")
 
@@ -673,6 +674,54 @@ def r3_exemptions(run, w):
     run.ob(R3, bu.qualname, "rows written = rows exempted",
            "the exemption covers exactly the cells that received explicit values",
            rows_src == bps[2], fi=bu.fi, node=wc, nontrivial=False)
+  # ---- (e2) DocActions.BulkAddRecord: the same for the values a new record is given
+  ba = inl.fn("docactions.DocActions.BulkAddRecord")
+  aex2 = expander(ba)
+  acfg2 = ba.cfg
+  aps = ba.fi.params()
+  adds = ba.nodes_calling(lambda c, nm, f: E.is_engine_call("add_records")(c, nm, f))
+  need(adds, "DocActions.BulkAddRecord: the add_records call was not found")
+  pcalls = [(n, c) for (n, c, nm) in ba.calls() if E.is_engine_call("prevent_recalc")(c, nm, ba)]
+  need(pcalls, "DocActions.BulkAddRecord: no prevent_recalc call; where the exemption of the "
+       "values given to a new record is taken cannot be followed")
+  for (pn, pc) in pcalls:
+    lps = [x for x in enclosing_loops(ba.node, pn.stmt) if isinstance(x, ast.For)]
+    need(lps, "DocActions.BulkAddRecord: the exemption is not taken in a loop over the columns")
+    lp = lps[0]
+    it = strip_wrappers(aex2.expand(lp.iter), names=("list", "sorted", "tuple", "iter"))
+    if isinstance(it, ast.Call) and isinstance(it.func, ast.Attribute) and \
+        it.func.attr in ("items", "keys") and not it.args:
+      it = it.func.value
+    m = bind_call(pc, prf) or {}
+    a_node, a_rows, a_flag = m.get(pps[1]), m.get(pps[2]), m.get(pps[3])
+    colx = a_node.value if isinstance(a_node, ast.Attribute) and a_node.attr == "node" else None
+    # the column exempted is the one named by the loop variable
+    var = lp.target.id if isinstance(lp.target, ast.Name) else \
+        (lp.target.elts[0].id if isinstance(lp.target, ast.Tuple) and lp.target.elts and
+         isinstance(lp.target.elts[0], ast.Name) else None)
+    colv = aex2.expand(colx) if colx is not None else None
+    col_ok = isinstance(colv, ast.Call) and isinstance(colv.func, ast.Attribute) and \
+        colv.func.attr == "get_column" and len(colv.args) == 1 and text(colv.args[0]) == var
+    need(colx is None or col_ok or not opaque_parts(w, ba.fi, colv),
+         "DocActions.BulkAddRecord: cannot follow which column is exempted (`%s`)" % short(a_node))
+    args_ok = text(it) == aps[3] and col_ok and a_rows is not None and \
+        aex2.norm(a_rows) == aps[2] and a_flag is not None and is_const(aex2.expand(a_flag), True)
+    # every iteration over a non-formula column reaches it, and the loop runs after the rows
+    # were added
+    lh = nodes_for(acfg2, lp)
+    lb = nodes_of_stmts(acfg2, lp.body)
+    first = {m_ for h in lh for m_ in acfg2.normal_succ(h) if m_ in lb}
+    key = "%s.is_formula()" % (text(colx) if colx is not None else "?")
+    frx = Facts(acfg2, {key}, ex=aex2)
+    seenx = frx.run([(m_, {}) for m_ in first], stop={pn.id} | lh)
+    leaks = [f for h in lh for f in seenx.get(h, []) if f.get(key) is not True]
+    ok = args_ok and not leaks and all(acfg2.postdominated_by(a_, lh) for a_ in adds)
+    run.ob(R3, ba.qualname, "for <col> in column_values: if not <col>.is_formula(): "
+           "self._engine.prevent_recalc(<col>.node, row_ids, should_prevent=True)",
+           "every explicit value a new record is given for a data column (a replayed "
+           "trigger-formula result included) is exempt from recalculation", ok, fi=ba.fi, node=pc,
+           witness=None if ok else ("a non-formula column can be left without exemption" if leaks
+                                    else "the exemption does not name the column / rows added"))
   # ---- (f) exemptions are lifted only by user-level code
   for fi in w.repo.all_functions():
     f2 = w.fn_of(fi)
@@ -723,13 +772,37 @@ VARIANTS = [
         dirty_rows = dirty_rows - exempt
         self.recompute_map[node] = dirty_rows""", "C03-R3"),
   ("docaction-does-not-exempt", D,
-   """      if not col.is_formula():
+   """      # even if triggered by something else within the same useraction).
+      if not col.is_formula():
         self._engine.prevent_recalc(col.node, row_ids, should_prevent=True)""",
-   """      if col.is_formula():
+   """      # even if triggered by something else within the same useraction).
+      if col.is_formula():
         self._engine.prevent_recalc(col.node, row_ids, should_prevent=True)""", "C03-R3"),
   ("docaction-lifts-exemption", D,
-   "        self._engine.prevent_recalc(col.node, row_ids, should_prevent=True)",
-   "        self._engine.prevent_recalc(col.node, row_ids, should_prevent=False)", "C03-R3"),
+   """      # even if triggered by something else within the same useraction).
+      if not col.is_formula():
+        self._engine.prevent_recalc(col.node, row_ids, should_prevent=True)""",
+   """      # even if triggered by something else within the same useraction).
+      if not col.is_formula():
+        self._engine.prevent_recalc(col.node, row_ids, should_prevent=False)""", "C03-R3"),
+  ("added-record-not-exempted", D,
+   """    # even if the same action also sets something the trigger formula depends on.
+    for col_id in column_values:
+      col = table.get_column(col_id)
+      if not col.is_formula():""",
+   """    # even if the same action also sets something the trigger formula depends on.
+    for col_id in column_values:
+      col = table.get_column(col_id)
+      if col.is_formula():""", "C03-R3"),
+  ("added-record-exempts-other-rows", D,
+   """      if not col.is_formula():
+        self._engine.prevent_recalc(col.node, row_ids, should_prevent=True)
+
+  def RemoveRecord""",
+   """      if not col.is_formula():
+        self._engine.prevent_recalc(col.node, row_ids[:1], should_prevent=True)
+
+  def RemoveRecord""", "C03-R3"),
   ("clear-at-end-of-user-action", EN,
    """        self._prevent_recompute_map.clear()
 
